@@ -37,7 +37,9 @@ def jobs(tier):
             else:
                 cells += [((2, 2), (0, 1)), ((1, 2, 1), (0, 1, 1))]
         for shape, ranks in cells:
-            for clause in ('tau', 'ls', 'omit'):
+            for clause in ('tau', 'ls', 'omit', 'tauls'):
+                if tm and clause == 'tauls' and tier == 'quick':
+                    continue
                 if tm and clause != 'tau' and ranks[0] == ranks[1] and tier == 'quick':
                     continue  # TM ties: 9 numeric paths x 4 clamp paths x 4 variants; thorough only
                 add(key, shape, ranks, clause, (300 if tier == 'quick' else 1800) if tm else 200, 60 if tm else 10)
@@ -47,7 +49,16 @@ def jobs(tier):
 def _variants(clause):
     """list of (label, cfgA, callA, cfgB, callB) using symbol names 't', 'T0'"""
     if clause == 'tau':
-        return [('tau', {'tau': 't'}, {}, {'tau': 'T0'}, {'tau': 't'})]
+        return [('tau', {'tau': 't'}, {}, {'tau': 'T0'}, {'tau': 't'}),
+                # the per-call value written as a Python int (rate(g, tau=0), tau=1, ...): same meaning as the float
+                ('tau int-typed', {'tau': 't'}, {}, {'tau': 'T0'}, {'tau': 'int:t'})]
+    if clause == 'tauls':
+        # both options at once: the resolved per-call tau must be the one every later step sees
+        v = []
+        for b in (True, False):
+            v.append((f'tau with model-level limit_sigma={b}', {'tau': 't', 'limit_sigma': b}, {}, {'tau': 'T0', 'limit_sigma': b}, {'tau': 't'}))
+            v.append((f'tau and limit_sigma={b} per call', {'tau': 't', 'limit_sigma': b}, {}, {'tau': 'T0', 'limit_sigma': not b}, {'tau': 't', 'limit_sigma': b}))
+        return v
     if clause == 'ls':
         v = []
         for b in (True, False):
@@ -61,7 +72,18 @@ def _variants(clause):
 
 
 def _resolve(d, mk):
-    return {k: (mk(v) if isinstance(v, str) else v) for k, v in d.items()}
+    out = {}
+    for k, v in d.items():
+        if isinstance(v, str) and v.startswith('int:'):
+            x = mk(v[4:])
+            if type(x) is float:
+                x = int(x)          # replay: a Python int
+            else:
+                x = type(x)(x.t, int, s=x.s, f=x.f)   # symbolic run: same term, Python kind int
+            out[k] = x
+        else:
+            out[k] = mk(v) if isinstance(v, str) else v
+    return out
 
 
 def _run_pair(key, shape, ranks, variant, mk):
@@ -79,12 +101,12 @@ def _run_pair(key, shape, ranks, variant, mk):
     return res
 
 
-def _draw(shape):
+def _draw(shape, int_t=False):
     base = H.draw_fn(shape)
 
     def draw(rng):
         e = base(rng)
-        e['t'] = rng.choice([0.0, 0.0, e['beta'] / 50, e['beta']])
+        e['t'] = rng.choice([0.0, 0.0, e['beta'] / 50, e['beta']]) if not int_t else float(rng.choice([0, 0, 1, 2]))
         e['T0'] = rng.choice([0.0, e['beta'] / 50, e['beta'] / 3])
         return e
     return draw
@@ -105,7 +127,8 @@ def run_job(spec, ctx):
     for variant in _variants(clause):
         first = True
         stats = {}
-        for (kind, out), eng in core.iter_paths(lambda: _run_pair(key, shape, ranks, variant, mk), base, _draw(shape),
+        vbase = base + ([z3.IsInt(t)] if 'int-typed' in variant[0] else [])
+        for (kind, out), eng in core.iter_paths(lambda: _run_pair(key, shape, ranks, variant, mk), vbase, _draw(shape, 'int-typed' in variant[0]),
                                                 opts={'deadline': ctx.deadline}, stats=stats):
             ctx.paths += 1
             if ctx.candidates:
@@ -155,6 +178,8 @@ def replay(cand):
     for ta, tb in zip(a, b):
         for (ma, sa), (mb, sb) in zip(ta, tb):
             worst = max(worst, abs(ma - mb) / max(abs(ma), abs(mb), inp['beta']), abs(sa - sb) / max(abs(sa), abs(sb), 1e-300))
+    if 'int-typed' in cand['variant']:
+        inp['t'] = float(int(round(inp.get('t', 0.0))))
     tz = 'tau=0' if inp.get('t') == 0 else 'tau>0'
     return {'violated': bool(worst > 1e-12),
             'key': f'{key}:{cand["variant"]}:{tz}',
